@@ -67,6 +67,13 @@ func buildHistory(c *core.Ctx, prop string, idx int, kind string) *histCase {
 	walkLookups := 0
 	observe := func(force bool, every int, n int) {
 		if force || n%every == 0 {
+			if prop == "C11" {
+				// the walk peeks at pages and cannot hang on a malformed
+				// tree; a SELECT can
+				hc.add(proto.Op{K: "walk", M: walkLookups}, opMeta{kind: "walk"})
+				hc.other("dump")
+				return
+			}
 			hc.other("dump")
 			hc.add(proto.Op{K: "walk", M: walkLookups}, opMeta{kind: "walk"})
 		}
@@ -108,7 +115,17 @@ func buildHistory(c *core.Ctx, prop string, idx int, kind string) *histCase {
 			if r.Chance(1, 30) {
 				hc.reopen()
 			}
-			observe(false, 5, i)
+			// around the split of the internal root (290 leaves = about 1165
+			// inserted rows) reload from the file after most statements:
+			// what only lives in the cache must not hide a page that never
+			// reached the file
+			if n := len(t.Rows); n > 1000 && n < 2000 && r.Chance(2, 3) {
+				hc.other("flush")
+				hc.reopen()
+				observe(true, 1, 0)
+			} else {
+				observe(false, 5, i)
+			}
 		}
 		hc.other("flush")
 		hc.reopen()
@@ -178,7 +195,7 @@ func historyCheck(c *core.Ctx, prop string) []core.Floor {
 func runHistoryCase(c *core.Ctx, prop, drv string, hc *histCase) {
 	dir := c.CaseDir("h")
 	defer removeAll(dir)
-	out := core.RunScript(drv, dir, hc.sc.ops, 300*time.Second)
+	out := core.RunScript(drv, dir, hc.sc.ops, 120*time.Second)
 	m := model.NewDB()
 	grave := model.Graveyard{}
 	var prevStats map[string]*treeStat
